@@ -947,8 +947,14 @@ class _NumericOperationsImpl(OperationsBlock):
         n_rows = ndx.reshape(n_rows, [-1])
         n_cols = ndx.reshape(n_cols, [-1])
         shape = ndx.concat([n_rows, n_cols])
-        dummy = ndx.zeros(shape, dtype=dtype)
-        return from_corearray(opx.eye_like(dummy._core(), k=k))
+        # onnxruntime implements EyeLike only for a few types: build in int64 and cast
+        via_dtype = (
+            dtypes.int64
+            if isinstance(dtype, (dtypes.Integral, dtypes.NullableIntegral))
+            else dtype
+        )
+        dummy = ndx.zeros(shape, dtype=via_dtype)
+        return from_corearray(opx.eye_like(dummy._core(), k=k)).astype(dtype)
 
     @validate_core
     def linspace(
